@@ -922,6 +922,12 @@ pub fn run_generated(env: &Env, prop: &str, thorough: bool, verif_seed: u64, run
 /// Replays a concrete trace with all oracles (fault-free prefix checked as well).
 pub fn run_trace(env: &Env, trace: &Trace, fault_prop: Props) -> RunOut {
     let mut sim = Sim::new(env, trace.config.clone(), fault_prop);
+    // same initial observation as a generated run, so that generation and replay are one path
+    {
+        let mut f = Vec::new();
+        sim.last = sim.observe_all(&mut f);
+        sim.map_findings(f, false);
+    }
     for op in &trace.ops {
         if !sim.step(op) {
             break;
